@@ -267,7 +267,16 @@ def check_all(ctx: Ctx, fi: FuncInfo) -> None:
 # ------------------------------------------------------------------ thorough tier
 
 
+GENERIC_FILES = ['permuta/perm_sets/permset.py', 'permuta/perm_sets/basis.py']
+
+
 def variants():
+    from ..selftest import generic_silent
+
+    return _variants() + generic_silent(GENERIC_FILES)
+
+
+def _variants():
     from ..selftest import V, insert_stmt, reformat_only, rename_local, replace_expr, replace_stmt
 
     PS = "permuta/perm_sets/permset.py"
